@@ -43,11 +43,11 @@ LINES = {
     'S1': ('eq', 'x', '.5*y + 1'),
     'S2': ('eq', 'y', '.25*x + g'),
     'LAG': ('lag', 'LAG_x', 'x'),
-    'USE': ('eq', 'z', 'LAG_x + 1'),
+    'USE': ('eq', 'u', 'LAG_x + 1'),
     'IC': ('ic', 'x', '5.'),
     'Y0': ('eq', 'y0', '.5*y0 + 2'),
     'ICY0': ('ic', 'y0', '3.'),
-    'K10': ('eq', 'K10', 'x + y0'),
+    'K10': ('eq', 'n', 'x + y0'),
     'T': ('eq', 't', 'LAG_t + 1.'),
     'LAGT': ('lag', 'LAG_t', 't'),
     'MT': ('param', 'MaxTime', '2'),
